@@ -58,6 +58,11 @@ def op_findlist(c):
     o['exists'] = dict(raised=errx, value=bool(e1))
     o['find_one'] = dict(raised=errf, value=_segs(f1) if f1 else [], none=(f1 is None))
     o['find_one_sid'] = dict(raised=errf2, **(snap(f2) if not errf2 else snap(None)))
+    # the constructor options of FindInList (beyond C08): the list extrapolated to its ancestors; pre-sorted and de-duplicated
+    rx, errx2 = guard(lambda: list(FindInList(list(L), do_extrapolate=True).find(s, as_sid=False)))
+    o['x_err'], o['x_res'] = errx2, [_segs(x) for x in (rx or [])]
+    rp, errp = guard(lambda: list(FindInList(list(L) + list(L[:2]), do_pre_sort=True).find(s, as_sid=False)))
+    o['ps_err'], o['ps_res'] = errp, [_segs(x) for x in (rp or [])]
     return o
 
 
